@@ -4509,7 +4509,7 @@ Case_BaseLdurStur:
           goto InvalidInstruction;
 
         // The size comes from the destination of a narrowing shift, so the source has to be checked against it.
-        if ((inst_flags & InstDB::kInstFlagNarrow) && !check_wide_scalar(o0, o1))
+        if ((inst_flags & InstDB::kInstFlagNarrow) && !check_wide_operand(o0, o1, inst_flags))
           goto InvalidInstruction;
 
         if (o2.as<Imm>().value_as<uint64_t>() > 63)
